@@ -238,15 +238,15 @@ impl<'a> BTreeReader<'a> {
 
             match header.page_type() {
                 PageType::BTreeLeaf => {
-                    let leaf = LeafNode::from_page(page_data)?;
-                    let exhausted = leaf.cell_count() == 0;
-                    return Ok(Cursor {
+                    let mut cursor = Cursor {
                         storage: self.storage,
                         root_page: self.root_page,
                         current_page,
                         current_index: 0,
-                        exhausted,
-                    });
+                        exhausted: false,
+                    };
+                    cursor.settle_forward()?;
+                    return Ok(cursor);
                 }
                 PageType::BTreeInterior => {
                     let interior = InteriorNode::from_page(page_data)?;
@@ -364,14 +364,15 @@ impl<'a> BTreeReader<'a> {
                         SearchResult::NotFound(idx) => idx,
                     };
 
-                    let exhausted = index >= leaf.cell_count() as usize;
-                    return Ok(Cursor {
+                    let mut cursor = Cursor {
                         storage: self.storage,
                         root_page: self.root_page,
                         current_page,
                         current_index: index,
-                        exhausted,
-                    });
+                        exhausted: false,
+                    };
+                    cursor.settle_forward()?;
+                    return Ok(cursor);
                 }
                 PageType::BTreeInterior => {
                     let interior = InteriorNode::from_page(page_data)?;
@@ -1274,15 +1275,15 @@ impl<'a, S: Storage> BTree<'a, S> {
 
             match header.page_type() {
                 PageType::BTreeLeaf => {
-                    let leaf = LeafNode::from_page(page_data)?;
-                    let exhausted = leaf.cell_count() == 0;
-                    return Ok(Cursor {
+                    let mut cursor = Cursor {
                         storage: self.storage,
                         root_page: self.root_page,
                         current_page,
                         current_index: 0,
-                        exhausted,
-                    });
+                        exhausted: false,
+                    };
+                    cursor.settle_forward()?;
+                    return Ok(cursor);
                 }
                 PageType::BTreeInterior => {
                     let interior = InteriorNode::from_page(page_data)?;
@@ -1316,14 +1317,15 @@ impl<'a, S: Storage> BTree<'a, S> {
                         SearchResult::NotFound(idx) => idx,
                     };
 
-                    let exhausted = index >= leaf.cell_count() as usize;
-                    return Ok(Cursor {
+                    let mut cursor = Cursor {
                         storage: self.storage,
                         root_page: self.root_page,
                         current_page,
                         current_index: index,
-                        exhausted,
-                    });
+                        exhausted: false,
+                    };
+                    cursor.settle_forward()?;
+                    return Ok(cursor);
                 }
                 PageType::BTreeInterior => {
                     let interior = InteriorNode::from_page(page_data)?;
@@ -1406,44 +1408,44 @@ impl<'a, S: Storage + ?Sized> Cursor<'a, S> {
         }
 
         self.current_index += 1;
+        self.settle_forward()?;
+        Ok(!self.exhausted)
+    }
 
-        let page_data = self.storage.page(self.current_page)?;
-        let leaf = LeafNode::from_page(page_data)?;
+    /// Makes the position valid for a forward scan: while it is past the last cell of
+    /// its leaf (a seek beyond the leaf's keys, the end of a leaf, a leaf emptied by
+    /// deletes) move to the first cell of the next leaf; exhausted only at the end of
+    /// the leaf chain.
+    fn settle_forward(&mut self) -> Result<()> {
+        loop {
+            let page_data = self.storage.page(self.current_page)?;
+            let leaf = LeafNode::from_page(page_data)?;
 
-        if self.current_index < leaf.cell_count() as usize {
-            return Ok(true);
+            if self.current_index < leaf.cell_count() as usize {
+                return Ok(());
+            }
+
+            let next_page = leaf.next_leaf();
+            if next_page == 0 {
+                self.exhausted = true;
+                return Ok(());
+            }
+
+            let page_count = self.storage.page_count();
+            if next_page >= page_count {
+                bail!(
+                    "corrupt next_leaf pointer: page {} has next_leaf={} but page_count={}",
+                    self.current_page,
+                    next_page,
+                    page_count
+                );
+            }
+
+            self.storage.prefetch_pages(next_page + 1, 2);
+
+            self.current_page = next_page;
+            self.current_index = 0;
         }
-
-        let next_page = leaf.next_leaf();
-
-        if next_page == 0 {
-            self.exhausted = true;
-            return Ok(false);
-        }
-
-        let page_count = self.storage.page_count();
-        if next_page >= page_count {
-            bail!(
-                "corrupt next_leaf pointer: page {} has next_leaf={} but page_count={}",
-                self.current_page,
-                next_page,
-                page_count
-            );
-        }
-
-        self.storage.prefetch_pages(next_page + 1, 2);
-
-        self.current_page = next_page;
-        self.current_index = 0;
-
-        let next_page_data = self.storage.page(self.current_page)?;
-        let next_leaf = LeafNode::from_page(next_page_data)?;
-        if next_leaf.cell_count() == 0 {
-            self.exhausted = true;
-            return Ok(false);
-        }
-
-        Ok(true)
     }
 
     pub fn prev(&mut self) -> Result<bool> {
